@@ -413,13 +413,15 @@ func evalC19PlanOnce(p c19Plan, scale int) *Failure {
 			tc := tls.Client(raw, c09ClientConfig(pk, "none"))
 			tc.SetDeadline(time.Now().Add(5 * time.Second * sc))
 			tc.Handshake()
-			expectClosed(tc, spec.Mode)
+			// judged on the socket itself: a handshake that failed or timed out on the client side leaves a sticky error on
+			// the tls.Conn, which says nothing about what the server did with its end
+			expectClosed(raw, spec.Mode)
 			return
 		case "tls-wrongname":
 			tc := tls.Client(raw, c09ClientConfig(pk, "wrongname"))
 			tc.SetDeadline(time.Now().Add(5 * time.Second * sc))
 			tc.Handshake()
-			expectClosed(tc, spec.Mode)
+			expectClosed(raw, spec.Mode)
 			return
 		case "tls-garbage":
 			raw.Write([]byte("\x16\x03\x01\x00\x05hello-not-tls"))
